@@ -107,6 +107,16 @@ fn pool_adversarial(pool: &[String]) -> bool {
     collide || concat || special
 }
 
+fn big_oracle(_docs: &[&crate::model::Node], bytes: &[Vec<u8>]) -> Result<bool, String> {
+    let root = crate::sut::parse_seq(bytes).map_err(|(i, e)| format!("document #{} rejected: {}", i + 1, e))?;
+    for opts in [crate::sut::Options::quick_xml_de(), crate::sut::Options::serde_xml_rs(), crate::sut::opts_quick(true, "")] {
+        let src = root.to_serde_struct(&opts);
+        let defs = read_both(&src).map_err(|e| format!("output is not a sequence of well-formed struct items: {}", e))?;
+        well_formed(&defs)?;
+    }
+    Ok(true)
+}
+
 impl Property for C04 {
     fn id(&self) -> &'static str {
         "C04"
@@ -179,6 +189,17 @@ impl Property for C04 {
         if let Some((e, docs)) = fail {
             return Err((Failure::new(format!("small-scope exhaustive search: {}", e)).with_detail(json!({"documents": docs})), json!({"small_scope_documents": docs})));
         }
+        // families beyond the small scope (sizes around plausible limits: windows, inline capacities, two-digit suffixes)
+        {
+            let (n, fail) = super::smallscope::run_big_families(big_oracle);
+            st.evaluations += n;
+            st.nontrivial_enumerated += n;
+            st.add("big_families", n);
+            if let Some((label, e, docs)) = fail {
+                let first = e.lines().next().unwrap_or("").to_string();
+                return Err((Failure::new(format!("family `{}`: {}", label, first)).with_detail(json!({"documents": docs, "message": e})), json!({"big_family": label})));
+            }
+        }
         // flat elements: every ordered sequence of up to 4 distinct children and up to 2 attributes over names whose
         // identifiers collide with each other and with the suffixes the identifier map hands out
         let max_children = match tier {
@@ -240,6 +261,9 @@ impl Property for C04 {
         Ok(())
     }
     fn replay_custom(&self, payload: &Value) -> Result<(), Failure> {
+        if let Some(l) = payload["big_family"].as_str() {
+            return super::smallscope::replay_big_family(l, big_oracle).map_err(Failure::new);
+        }
         let docs: Vec<Vec<u8>> = payload["small_scope_documents"].as_array().map(|a| a.iter().map(|d| d.as_str().unwrap_or("").as_bytes().to_vec()).collect()).unwrap_or_default();
         let root = crate::sut::parse_seq(&docs).map_err(|(i, e)| Failure::new(format!("document #{} rejected: {}", i + 1, e)))?;
         for opts in [crate::sut::Options::quick_xml_de(), crate::sut::Options::serde_xml_rs()] {
